@@ -290,13 +290,18 @@ def check(case):
                 continue
         elif not sign_change and not end_root:
             special = 'no-sign-change'
+            # an end whose residual meets a positive r_tol is a root at the requested tolerance: the finder may return
+            # it ("if an end point is itself a root it is returned") or report the missing sign change with NaN
+            if any(case['r_tol'] > 0 and abs(fv) <= case['r_tol'] and xr == bb for bb, fv in zip(b, (fl, fh))):
+                special = 'end-within-r_tol'
+                continue
             if not math.isnan(xr):
                 fails.append(Failure('nan-without-sign-change', 'returned %r although f has the same sign at both ends '
                                      '(f=%r,%r)%s' % (xr, fl, fh, tag)))
             continue
         if end_root and not ambiguous:
             special = 'end-root'
-            ok_vals = [bb for bb, fv in zip(b, (fl, fh)) if fv == 0.0]
+            ok_vals = [bb for bb, fv in zip(b, (fl, fh)) if fv == 0.0 or (case['r_tol'] > 0 and abs(fv) <= case['r_tol'])]
             if not any(xr == v for v in ok_vals):
                 fails.append(Failure('end-point-root', 'end point %r is a root but %r was returned%s' % (ok_vals, xr, tag)))
             continue
